@@ -285,7 +285,63 @@ def known_finding_histories(real):
     ]
 
 
+# ------------------------------------------------------------------------------------------------
+# P-20a  the simple queries and reverse() from their real AST, over the two index dictionaries as opaque maps (set objects are
+# identities here: what the sets contain is the bounded part's business)
+import z3
+from vf.pyvc.speclib import SpecLib
+from vf.pyvc.world import World, Contract
+from vf.pyvc.values import VObj, VBox, DictVal, empty_dict, fresh, fresh_name
+from vf.pyvc.driver import verify_contracts
+
+
+def _db(ex):
+    def d(nm):
+        e = empty_dict("str", "int")
+        return VBox("dict", DictVal("str", "int", z3.Const(fresh_name(nm + "_keys"), e.keys.sort()),
+                                    z3.Const(fresh_name(nm + "_vals"), e.vals.sort())), nm)
+    return VObj("DB", {"db": d("db"), "rdb": d("rdb")}, "self")
+
+
+class _Q(Contract):
+    modular = False
+    modifies = ()
+
+    def setup(self, ex):
+        return {"self": _db(ex), "pkg": fresh("str", "pkg"), "tag": fresh("str", "tag")}
+
+
+def _q(name, params, ensures):
+    class C(_Q):
+        target = MOD + ":DB." + name
+        def setup(self, ex, params=params):
+            full = _Q.setup(self, ex)
+            return {k: v for k, v in full.items() if k in ("self",) + params}
+    C.ensures = ensures
+    C.__name__ = "DB_" + name
+    return C()
+
+
+class Reverse(Contract):
+    target = MOD + ":DB.reverse"
+    modular = False
+    modifies = ()
+    ensures = ("result.db is self.rdb and result.rdb is self.db",)
+
+    def setup(self, ex):
+        return {"self": _db(ex)}
+
+
+def run_deductive(ctx):
+    w = World(SpecLib())
+    cs = [_q("has_package", ("pkg",), ("result == (pkg in self.db)",)), _q("has_tag", ("tag",), ("result == (tag in self.rdb)",)),
+          _q("package_count", (), ("result == len(self.db)",)), _q("tag_count", (), ("result == len(self.rdb)",)), Reverse()]
+    verify_contracts(ctx, w, cs, {})
+    ctx.solve()
+
+
 def run(ctx):
+    run_deductive(ctx)
     mod = extract.load(MOD)
     real = mod.real()
     for q in ("DB.insert", "DB.read", "DB.copy", "DB.reverse", "DB.reverse_copy", "DB.choose_packages",
@@ -317,7 +373,9 @@ def run(ctx):
             ctx.violation(key, "F-20 " + key, text, inputs={"history": text}, confirmed=True)
     ctx.level = "other"
     ctx.explanation = (
-        "BOUNDED ONLY in this revision. The reference model shares and copies set objects exactly as the docstrings say and "
+        "PROVED from the AST (very small functions, but the real ones): has_package / has_tag are membership in the package / tag "
+        "index, package_count / tag_count their sizes, reverse() a collection whose two indexes are the SAME dictionary objects, "
+        "swapped. Everything about the contents of the tag and package sets is BOUNDED: the reference model shares and copies set objects exactly as the docstrings say and "
         "reproduces the one recorded deviation of DB.insert; real and model states are compared for every live collection "
         "after every step, so a change in what is shared or copied, in the reverse index, in read/filter semantics or in the "
         "queries shows up as a state difference. Histories in which the documented sharing itself breaks the parent's "
